@@ -38,10 +38,13 @@ type ocCase struct {
 	Close      string // close | closeDiscard | server | httpServer
 	Target     int    // session closed by close/closeDiscard
 	MidUpgrade bool   // target session has an upgrade candidate in flight when closed
+	// FinishUpgrade: after a graceful close with data still buffered the probed candidate sends its upgrade packet:
+	// the switch completes, the buffered packets leave on the new transport, then the session closes
+	FinishUpgrade bool
 }
 
 func (c ocCase) String() string {
-	return fmt.Sprintf("{%+v close=%s target=%d midUpgrade=%v}", c.Sess, c.Close, c.Target, c.MidUpgrade)
+	return fmt.Sprintf("{%+v close=%s target=%d midUpgrade=%v finishUpgrade=%v}", c.Sess, c.Close, c.Target, c.MidUpgrade, c.FinishUpgrade)
 }
 
 func genC12(rt *rapid.T, gates bool, known bool, col *Collector) ocCase {
@@ -80,6 +83,7 @@ func genC12(rt *rapid.T, gates bool, known bool, col *Collector) ocCase {
 	}
 	c.Target = rapid.IntRange(0, n-1).Draw(rt, "target")
 	c.MidUpgrade = rapid.IntRange(0, 4).Draw(rt, "midUpgrade") == 0
+	c.FinishUpgrade = c.MidUpgrade && c.Close == "close" && rapid.Bool().Draw(rt, "finishUpgrade")
 	return c
 }
 
@@ -91,9 +95,11 @@ type ocSess struct {
 	sr   *SessRec
 	sent []Pkt
 	cand *WSClient // upgrade candidate in flight
+	// switched: the candidate completed the upgrade after the close call
+	switched bool
 }
 
-func (s *ocSess) onPolling() bool { return s.sp.Car == "polling" }
+func (s *ocSess) onPolling() bool { return s.sp.Car == "polling" && !s.switched }
 
 func (s *ocSess) pumpMsgs() []Pkt {
 	var out []Pkt
@@ -317,6 +323,13 @@ func runC12(c ocCase) (fail string, stats map[string]bool) {
 	}
 	if len(closing) >= 2 {
 		stats["shutdown>=2-sessions"] = true
+	}
+	if c.FinishUpgrade && tgt.cand != nil && tgt.sr.Sock.ReadyState() == "closing" {
+		// the session drains: nothing keeps the candidate from completing the switch
+		tgt.cand.SendPacket(ctl(tUpgrade), nil)
+		Settle()
+		stats["upgrade-completed-while-closing"] = true
+		tgt.wc, tgt.cand, tgt.switched = tgt.cand, nil, true
 	}
 	// let the writers go (the close has run while they held their batch)
 	Settle()
@@ -564,7 +577,7 @@ func seqSizes(ps []Pkt) string {
 
 func TestC12OrderlyClose(t *testing.T) {
 	col := NewCollector("TestC12OrderlyClose",
-		"rapid: 1-4 sessions (polling, websocket, webtransport, or upgraded from polling; revision 3/4), each with 0-10 Sends (sizes 0..70000, text/binary, with callbacks) issued with a poll pending / arriving 1ms..30.001s later / never again, optionally an upgrade candidate in flight, then Close(false), Close(true), Server.Close or closing the attached HTTP server (at shutdown some sessions have already been closed gracefully by the application and may still be draining); gated variant: the transport's writer goroutine is held at its first statement (it holds the last batch) while the close runs; oracle: graceful close => the client receives exactly the sent messages, then the close packet / connection end, reason 'forced close'; a client that never polls again still sees the session close no later than max(30s, heartbeat deadline); discarding closes deliver a prefix; a poll pending at any close is answered by the close event; shutdown => every session exactly one close event, empty client table, count 0, as soon as the call has returned and quiescence is reached (zero virtual time) and again 31 s later; other sessions untouched. non-trivial: >=1 buffered packet at close time or >=2 sessions at shutdown").Use(t)
+		"rapid: 1-4 sessions (polling, websocket, webtransport, or upgraded from polling; revision 3/4), each with 0-10 Sends (sizes 0..70000, text/binary, with callbacks) issued with a poll pending / arriving 1ms..30.001s later / never again, optionally an upgrade candidate in flight (which may send its upgrade packet after a graceful close that is still draining: the buffered packets then leave on the new transport), then Close(false), Close(true), Server.Close or closing the attached HTTP server (at shutdown some sessions have already been closed gracefully by the application and may still be draining); gated variant: the transport's writer goroutine is held at its first statement (it holds the last batch) while the close runs; oracle: graceful close => the client receives exactly the sent messages, then the close packet / connection end, reason 'forced close'; a client that never polls again still sees the session close no later than max(30s, heartbeat deadline); discarding closes deliver a prefix; a poll pending at any close is answered by the close event; shutdown => every session exactly one close event, empty client table, count 0, as soon as the call has returned and quiescence is reached (zero virtual time) and again 31 s later; other sessions untouched. non-trivial: >=1 buffered packet at close time or >=2 sessions at shutdown").Use(t)
 	known := isKnown("C12", sigCloseLosesBatch)
 	for _, gated := range []bool{false, true} {
 		rapid.Check(t, func(rt *rapid.T) {
@@ -588,7 +601,7 @@ func TestC12OrderlyClose(t *testing.T) {
 			}
 		})
 	}
-	req := []string{"session-still-closing-at-shutdown", "graceful-close", "discarding-close", "server-close", "http-server-close", "shutdown>=2-sessions", "client-never-polls-again", "close-during-upgrade", "upgraded-session", "carrier.polling", "carrier.websocket", "carrier.webtransport", "close-while-writer-parked"}
+	req := []string{"upgrade-completed-while-closing", "session-still-closing-at-shutdown", "graceful-close", "discarding-close", "server-close", "http-server-close", "shutdown>=2-sessions", "client-never-polls-again", "close-during-upgrade", "upgraded-session", "carrier.polling", "carrier.websocket", "carrier.webtransport", "close-while-writer-parked"}
 	col.RequireClasses(t, req...)
 }
 
